@@ -56,8 +56,12 @@ def huffman_decode_rows(ctx, rule="C15-a"):
             fv = p.outcomes("HuffmanDecoder::fetch_value")       # the same chain for `match`, `?` and `.ok_or_else(..)?`
             got = p.outcomes("::get")
             sh = p.ret_shape()
+            if not fv and not p.has_call("HuffmanDecoder::fetch_value"):
+                # fetch_value written in place: read_bits Ok(v) is Ok(Some(v)); read_bits Err hands over to check_eof (padding check, C15-d)
+                rb = p.outcomes("decode::read_bits")
+                fv = ["Ok", "Some"] if rb[:1] == ["Ok"] else (p.outcomes("HuffmanDecoder::check_eof") if rb[:1] == ["Err"] else [])
             if fv[:1] == ["Err"]:
-                row, ok = "fetch_value Err", (sh.startswith("Err(") or sh.startswith("Residual(")) and "fetch_value" in pa.vfmt(p.ret)
+                row, ok = "fetch_value Err", (sh.startswith("Err(") or sh.startswith("Residual(")) and ("fetch_value" in pa.vfmt(p.ret) or "check_eof" in pa.vfmt(p.ret))
             elif fv[:2] == ["Ok", "None"]:
                 row, ok = "fetch_value Ok(None)", sh == "Ok(None)"
             elif got[:1] == ["None"]:
@@ -331,10 +335,11 @@ def run(ctx):
     ce = ru.need(ctx, "C15-d", P + "decode::HuffmanDecoder::check_eof")
     if ce:
         ps = [p for p in ru.all_paths(ctx, "C15-d", ce) if p.end == "return"]
-        last = [p for p in ps if any(t[2] == "Equal" for t in p.tests)]
+        # the last-byte branch is the one that reads the remaining bits (however the position test is written: `cmp` + match, if/else)
+        last = [p for p in ps if p.has_call(P + "decode::read_bits")]
         acc = [p for p in last if p.ret_shape() == "Ok(None)"]
         ctx.floor("C15-d", "paths of check_eof on the last byte", len(last), 2)
-        ctx.check(len(acc) >= 1, "C15-d", ce.key, "an accepting path exists for the last byte", "no Ok(None) path on Ordering::Equal", "")
+        ctx.check(len(acc) >= 1, "C15-d", ce.key, "an accepting path exists for the last byte", "no Ok(None) path that examines the remaining bits", "")
         for p in acc:
             tst = [t for t in p.tests if t[3][0] == "binop" and t[3][1] == "Eq" and expr.mentions(t[3], lambda v: v[0] == "binop" and v[1] == "BitAnd")]
             ok = len(tst) == 1 and tst[0][2] == "true"
